@@ -20,10 +20,10 @@ theorem stats_trigger (r : Run) (n : String) (hs : Stats r) : Stats (r.trigger n
 
 theorem base_preserves : Preserves base := by
   intro r res r' h hs
-  have hX : Stats ((r.emitSeen "fn" 0 r.seenLast).trigger "fn") := stats_trigger _ _ hs
+  have hX : Stats ((r.emitSeen (if r.hedgeAttempt then "fnh" else "fn") 0 r.seenLast).trigger "fn") := stats_trigger _ _ hs
   unfold base at h
   simp only at h
-  generalize ((r.emitSeen "fn" 0 r.seenLast).trigger "fn") = X at h hX
+  generalize ((r.emitSeen (if r.hedgeAttempt then "fnh" else "fn") 0 r.seenLast).trigger "fn") = X at h hX
   repeat' (split at h)
   all_goals first
     | (simp at h; done)
@@ -111,14 +111,14 @@ theorem hedge_preserves (pos n : Nat) (co : List Cond) (inner : Layer) (hi : Pre
   | succ f ih =>
     intro k d b r res r' h hs
     simp only [hedgeLoop] at h
-    have hs0 : Stats (if (k == 0) = true then r else ({ r with attempts := r.attempts + 1, hedges := r.hedges + 1 }).emit "hp.onHedge" pos) := by
+    have hs0 : Stats (if (k == 0) = true then { r with hedgeAttempt := false } else ({ r with attempts := r.attempts + 1, hedges := r.hedges + 1, hedgeAttempt := true }).emit "hp.onHedge" pos) := by
       split
       · exact hs
       · show _ = _
         simp only [Run.emit]
         have : r.attempts = 1 + r.retries + r.hedges := hs
         omega
-    generalize (if (k == 0) = true then r else ({ r with attempts := r.attempts + 1, hedges := r.hedges + 1 }).emit "hp.onHedge" pos) = r0 at h hs0
+    generalize (if (k == 0) = true then { r with hedgeAttempt := false } else ({ r with attempts := r.attempts + 1, hedges := r.hedges + 1, hedgeAttempt := true }).emit "hp.onHedge" pos) = r0 at h hs0
     have hsd : Stats { r0 with script := List.drop 1 r0.script, inv := r0.inv + 1 } := hs0
     cases hin : inner r0 with
     | none =>
